@@ -485,7 +485,9 @@ def inversion_docs(max_nodes, sample_nodes=None, sample_size=0, rng=None):
             docs.append((gen.to_yaml(t), "."))          # a scalar searched with `.`: the value itself
     # the canonical known case and a few anchored-boolean / look-alike values beyond the tree alphabet
     extra = ("[{a: 1}, {b: 2}]", "[{a: 1}, {b: 2}, {a: 2}, 3]", "[&y true, true, false]", "{a: &y true}",
-             "[{a: \"'x'\"}, {a: x}]", "[\"[1, 2]\", \"[1,2]\"]", "[1.5, \"1.50\", 1, \"1\", true, \"true\", null]")
+             "[{a: \"'x'\"}, {a: x}]", "[\"[1, 2]\", \"[1,2]\"]", "[1.5, \"1.50\", 1, \"1\", true, \"true\", null]",
+             # hashes whose keys look alike: several keys equal one term under the typed rules
+             "{1: a, \"1\": b, 2: c, a: d}", "{true: a, \"True\": b, \"true\": c, other: d}", "{1.5: a, \"1.5\": b, \"1.50\": c}")
     for d in extra:
         docs.append((d, "."))
         docs.append((d, "a"))
@@ -544,7 +546,7 @@ def run(tier="quick", seed=0, jobs=None):
                  "calls": len(grid), "complete": True},
         "random": {"pairs": n_pairs, "calls_per_pair": 14, "seed": seed},
         "inversion": {"documents": "every rtc.gen.trees(N<=%d, depth<=3) document with a list/hash/set root + a seeded sample of %d "
-                                   "documents with N=%d + %d hand-picked" % (max_nodes, sample_size, max_nodes + 1, 7),
+                                   "documents with N=%d + %d hand-picked" % (max_nodes, sample_size, max_nodes + 1, 10),
                       "doc_x_attr": len(docs), "attrs": [".", "a"], "operators": 9, "terms": list(terms),
                       "complete": "all documents with N<=%d; N=%d sampled" % (max_nodes, max_nodes + 1)},
     }
